@@ -399,6 +399,20 @@ def main():
 
     fact("registry", "List (String × Nat × String × String × String × Bool)", registry, "[]")
 
+    def type_tag_bytes():
+        from x690.util import TypeInfo
+
+        rows = {}
+        for cls in X690Type.all():
+            try:
+                rows[cls.__name__] = bytes(TypeInfo(cls.TYPECLASS, cls.NATURE[0], cls.TAG))[0]
+            except Exception:  # noqa: BLE001 - classes with tags that do not fit one octet
+                continue
+        return lean_list([f"({lean_str(k)}, {v})" for k, v in sorted(rows.items())])
+
+    # identifier octet `bytes(obj)` starts with: class, first registered nature, tag
+    fact("typeTagBytes", "List (String × Nat)", type_tag_bytes, "[]")
+
     def pdu_tags():
         rows = []
         for name in ["GetRequest", "GetNextRequest", "GetResponse", "SetRequest", "BulkGetRequest", "InformRequest", "Trap", "Report"]:
